@@ -214,6 +214,7 @@ def h_scan(d1: int, d2: int, f1: int, f3: int) -> bool:
 
 
 FIX_F1 = param("fix_f1", None)
+FIX_F3 = param("fix_f3", 0)
 
 
 def real_h_scan(d1, d2, f1, f3):
@@ -310,3 +311,39 @@ def real_h_check(d1, d2, f3, quiet):
             extra = eval(b.split(":", 1)[1])
     only_arg = bool(extra) and hidden(argdir) and all(not hidden(x[len(argdir) + 1:]) and not excluded_ref(x, list(scn.DEFAULT_EXCLUDES)) for x in extra)
     return {"reproduced": bool(bad), "sig": f"check-vs-scan:{ARG}:{'+'.join(kinds)}" + (":dot-component-in-the-directory-argument" if only_arg else ""), "detail": f"target {DIRS[d1]}/{DIRS[d2]}/{FILES[f3]} reached as {ARG} cfg {CFG}: {bad}"}
+
+
+# ----------------------------------------------------------------------------------------------- C06: directory traversal order
+@untraced
+def _scan_sig(d1, d2, f3, rev, rot):
+    files = tree_files(d1, d2, 0, f3)
+    files["/w/src/util.js"] = "util"
+    files["/w/lib2/z.py"] = "z"
+    fs = fsstub.FakeFS(files, cwd="/w", dirs={"/x", "/w/src"})
+    if rev or rot:
+        def order(names):
+            names = list(reversed(names)) if rev else list(names)
+            return names[1:] + names[:1] if rot and names else names
+        fs.order = order
+    analysed, checked = [], []
+    FP, con, restore = _install(fs, analysed, checked)
+    try:
+        cb = scn.scan_path(FP("/w"))
+        cb.aggregate()
+    finally:
+        restore()
+    tot = {k: (t.files, t.loc, t.functions, t.hard_to_maintain, t.unmaintainable) for k, t in cb.totals.items()}
+    tree = {k: (sorted(e.name for e in f.entries), f.profile) for k, f in cb.tree.items()}
+    fl = {k: (e.checksum(), e.language, e.loc, [(m.unit_name, m.value) for m in e.measurements()]) for k, e in cb.files.items()}
+    return tot, tree, fl, sorted(analysed)
+
+
+def h_walk_order(d1: int, d2: int, f3: int, rev: bool, rot: bool) -> bool:
+    """
+    pre: 0 <= d1 < len(DIRS) and 0 <= d2 < len(DIRS) and f3 == FIX_F3
+    post: _
+    """
+    a, b, c = _pick(d1, len(DIRS)), _pick(d2, len(DIRS)), _pick(f3, len(FILES))
+    base = _scan_sig(a, b, c, False, False)
+    other = _scan_sig(a, b, c, True if rev else False, True if rot else False)
+    return fin(base == other, rev)
